@@ -394,6 +394,8 @@ class _MergedCircuit:
                 (self.qubit_indexes[q][-1] for q in c_qs),
                 (self.mkey_indexes[ckey][-1] for ckey in c.ckeys),
                 (self.ckey_indexes[mkey][-1] for mkey in c.mkeys),
+                # Measurements with the same key keep their order: so do their records.
+                (self.mkey_indexes[mkey][-1] for mkey in c.mkeys),
             ),
             default=-1,
         )
